@@ -4,28 +4,36 @@
    logged event:   IsEv(name) /\ <logged fields bound> /\ SpecAction(args).
    Every event is logged, so the search is linear; the invariants are evaluated in every state of the
    trace-induced behaviour.  Executions are concatenated with Reset events. *)
-EXTENDS TpLife, Json, IOUtils
+EXTENDS TpLife, TpEvent, Json, IOUtils
 
 Tr == ndJsonDeserialize(IOEnv.TRACE)
 
 Procs == Workers \cup (100..140)
 VARIABLES l,         \* next trace line to consume
           lastRan,   \* [Procs -> index into ran of the latest callback entered on that thread, 0 = none]
-          ucb        \* user messages whose harness callback has been observed
-tvars == <<msgVars, bVars, lVars, l, lastRan, ucb>>
+          ucb,       \* user messages whose harness callback has been observed
+          ecall,     \* event object -> arguments of the add/enable/disable/delete call in progress
+          eenv       \* event object -> [eof, eofSeen, kmin, lastDeliv] (environment / expectations of the scenario)
+tvars == <<msgVars, bVars, lVars, eVars, l, lastRan, ucb, ecall, eenv>>
+EvObjs == 0..31
+NoECall == [op |-> -1, ev |-> 0, fl |-> 0, ff |-> 0, thr |-> -1]
+NoEnv == [eof |-> FALSE, eofSeen |-> FALSE, kmin |-> 0, cbs |-> 0, pendcb |-> FALSE]
 
 IsEv(e) == l <= Len(Tr) /\ Tr[l].e = e /\ l' = l + 1
 E == Tr[l]
 
 BInit0 == /\ rec = << >> /\ inProxy = [p \in Procs |-> 0]
           /\ pend = [p \in Procs |-> NoCall] /\ plain = << >>
-TInit == /\ InitMsg("STOP") /\ BInit0 /\ InitLife /\ l = 1
+EInit0 == /\ ereg = [u \in EvObjs |-> EvNoReg] /\ busy = [u \in EvObjs |-> -1] /\ fired = [u \in EvObjs |-> 0]
+          /\ ecall = [u \in EvObjs |-> NoECall] /\ eenv = [u \in EvObjs |-> NoEnv]
+TInit == /\ InitMsg("STOP") /\ BInit0 /\ InitLife /\ EInit0 /\ l = 1
          /\ lastRan = [p \in Procs |-> 0] /\ ucb = {}
 
 NoteRan == lastRan' = IF Len(ran') > Len(ran) THEN [lastRan EXCEPT ![ran'[Len(ran')].on] = Len(ran')] ELSE lastRan
 Keep  == UNCHANGED <<lastRan, ucb>>
 KeepB == UNCHANGED bVars
-KeepL == UNCHANGED lVars
+KeepL == UNCHANGED <<lVars, eVars, ecall, eenv>>      \* life-cycle and event registrations untouched
+KeepLL == UNCHANGED lVars
 KeepM == UNCHANGED <<msgVars, lastRan, ucb>>
 
 InstOfMsg(m) == CHOOSE i \in DOMAIN inst : inst[i].u = 1000 + m
@@ -62,6 +70,8 @@ TReset     == IsEv("Reset") /\ ResetMsg("STOP") /\ lastRan' = [p \in Procs |-> 0
               /\ rec' = << >> /\ inProxy' = [p \in Procs |-> 0] /\ pend' = [p \in Procs |-> NoCall] /\ plain' = << >>
               /\ phase' = "none" /\ hstart' = [t \in Threads |-> 0] /\ hstop' = [t \in Threads |-> 0]
               /\ made' = {} /\ exited' = {} /\ joined' = {} /\ ptid0' = {} /\ shut' = 0 /\ tcfail' = FALSE
+              /\ ereg' = [u \in EvObjs |-> EvNoReg] /\ busy' = [u \in EvObjs |-> -1] /\ fired' = [u \in EvObjs |-> 0]
+              /\ ecall' = [u \in EvObjs |-> NoECall] /\ eenv' = [u \in EvObjs |-> NoEnv]
 
 (* ---- broadcasts (TpBcast) ---- *)
 TCallB     == IsEv("call.bsend") /\ Call(E.t, "bsend", E.m, E.f, E.nthr) /\ KeepM /\ KeepL
@@ -88,8 +98,9 @@ TDoneFree  == IsEv("done.free") /\ DoneFree(E.t, E.b) /\ KeepM /\ KeepL
 TRetCb     == IsEv("ret.cbsend") /\ RetCbsend(E.t, E.m, E.rc) /\ KeepM /\ KeepL
 
 (* ---- life cycle (TpLife) ---- *)
-KeepMB == KeepM /\ KeepB
+KeepMB == KeepM /\ KeepB /\ UNCHANGED <<eVars, ecall, eenv>>
 SetT(t, s) == tstate' = [tstate EXCEPT ![t] = s] /\ UNCHANGED <<wopen, inst, pipe, batch, ran, ret, lastRan, ucb>> /\ KeepB
+              /\ UNCHANGED <<eVars, ecall, eenv>>
 TCallCreate == IsEv("call.create") /\ CallCreate /\ KeepMB
 THookStart  == IsEv("hook.start") /\ HookStart(E.a) /\ KeepMB
 THookStop   == IsEv("hook.stop") /\ HookStop(E.a) /\ KeepMB
@@ -102,9 +113,9 @@ TProc       == \E w \in {"proc.enter", "proc.running", "proc.onstart", "proc.ons
                  /\ IsEv(w) /\ ProcStep(E.a, w)
                  /\ IF w = "proc.running" THEN SetT(E.a, "RUNNING")
                     ELSE IF w = "proc.stop" THEN SetT(E.a, "STOP") ELSE KeepMB
-TShutCb     == IsEv("shutdown.cb") /\ SetT(E.a, "STOPING") /\ KeepL
+TShutCb     == IsEv("shutdown.cb") /\ SetT(E.a, "STOPING") /\ KeepLL
 TShutSet    == IsEv("shutdown.set") /\ ShutdownSet(E.v) /\ SetT(PVT, "STOP")
-TPvtRun     == IsEv("create.pvt_running") /\ SetT(PVT, "RUNNING") /\ KeepL
+TPvtRun     == IsEv("create.pvt_running") /\ SetT(PVT, "RUNNING") /\ KeepLL
 TJoin0      == IsEv("sys.join0") /\ Join0 /\ KeepMB
 TJoined     == IsEv("wait.joined") /\ Joined(E.b, E.v) /\ KeepMB
 TDestroyFree == IsEv("destroy.free") /\ DestroyFree /\ KeepMB
@@ -116,7 +127,34 @@ TClose      == IsEv("sys.close") /\ KeepL /\ KeepB /\ Keep
 TCrash      == IsEv("Crash") /\ Crashed(E.t) /\ KeepMB
 THang       == IsEv("Hang") /\ Hung(E.where) /\ KeepMB
 
-TNext == \/ TEnter \/ TDirect \/ TRunning \/ TNotRun \/ TWrite \/ TReturn
+(* ---- event and timer registrations (TpEvent) ---- *)
+KeepAllButE == KeepM /\ KeepB /\ KeepLL
+TEvNew     == IsEv("evnew") /\ KeepAllButE /\ UNCHANGED eVars /\ UNCHANGED ecall
+              /\ eenv' = [eenv EXCEPT ![E.u] = [NoEnv EXCEPT !.kmin = E.k]]
+TEvCall    == IsEv("call.ev") /\ KeepAllButE /\ EvEnter(E.u, E.t) /\ UNCHANGED eenv
+              /\ ecall' = [ecall EXCEPT ![E.u] = [op |-> E.op, ev |-> E.ev, fl |-> E.fl, ff |-> E.ff, thr |-> E.thr]]
+TEvRet     == IsEv("ret.ev") /\ KeepAllButE /\ UNCHANGED eenv
+              /\ LET c == ecall[E.u] IN EvPost(E.u, E.t, c.op, c.ev, c.fl, c.ff, c.thr, E.rc, E.tpd = 1)
+              /\ ecall' = [ecall EXCEPT ![E.u] = NoECall]
+TEvGate    == IsEv("loop.gate") /\ KeepAllButE /\ UNCHANGED <<ecall, eenv>> /\ EvGate(E.t, E.u, E.dis = 1, E.set = 1)
+TEvDeliver == IsEv("loop.cb") /\ KeepAllButE /\ UNCHANGED ecall /\ EvDeliver(E.t, E.u, E.evk)
+              /\ eenv' = [eenv EXCEPT ![E.u].pendcb = TRUE]
+TEvCb      == IsEv("evcb") /\ KeepAllButE /\ UNCHANGED <<eVars, ecall>>
+              /\ eenv[E.u].pendcb /\ E.cur = E.t                          \* the callback the loop just started, on that thread
+              /\ ((E.fl \div 256) % 2 = 1 => eenv[E.u].eof)               \* (C06) EOF flag only after the peer closed
+              /\ eenv' = [eenv EXCEPT ![E.u].pendcb = FALSE, ![E.u].cbs = @ + 1,
+                                      ![E.u].eofSeen = @ \/ ((E.fl \div 256) % 2 = 1)]
+TEvEnv     == (IsEv("mkready") \/ IsEv("drained")) /\ KeepAllButE /\ UNCHANGED <<eVars, ecall, eenv>>
+TEvPeer    == IsEv("peerclose") /\ KeepAllButE /\ UNCHANGED <<eVars, ecall>> /\ eenv' = [eenv EXCEPT ![E.u].eof = TRUE]
+(* evcount: end of the observation window of object u *)
+TEvCount   == IsEv("evcount") /\ KeepAllButE /\ UNCHANGED <<eVars, ecall, eenv>>
+              /\ E.cnt = eenv[E.u].cbs
+              /\ E.cnt >= eenv[E.u].kmin                                   \* (C06) a persistent event kept firing
+              /\ (eenv[E.u].eof /\ ereg[E.u].present /\ ~ereg[E.u].dis => eenv[E.u].eofSeen)   \* (C06) EOF reported
+              /\ C06Inv
+
+TNext == \/ TEvNew \/ TEvCall \/ TEvRet \/ TEvGate \/ TEvDeliver \/ TEvCb \/ TEvEnv \/ TEvPeer \/ TEvCount
+         \/ TEnter \/ TDirect \/ TRunning \/ TNotRun \/ TWrite \/ TReturn
          \/ TRead \/ TRun \/ TUserCb \/ TQuiesce \/ TReset
          \/ TCallB \/ TCallCb \/ TRecInit \/ TProxy \/ TOboCbDone \/ TBcbBegin \/ TBcbEnd \/ TDec \/ TWait \/ TSyncLeave
          \/ TRetB \/ TDonePost \/ TDoneBegin \/ TUDone \/ TDoneFree \/ TRetCb
